@@ -502,12 +502,17 @@ func refcountFree(t *testing.T, prop string) {
 			var nextVal, inResolver atomic.Int32
 			relAt := make([]atomic.Int32, 4096) // relAt[id % len] == id once value id's release func ran
 			relN := make([]atomic.Int32, 4096)  // number of release calls per value id
+			handles := make([]atomic.Pointer[func()], 4096) // released() handle of each value
+			invalidated := make([]atomic.Bool, 4096)        // released() was called for this value
 			resolver := func(ctx context.Context, released func()) (int, func(), error) {
 				if n := inResolver.Add(1); n > 1 {
 					f.add("C09", "refcount:resolver-overlap", "%d resolver calls running at once", n)
 				}
 				runtime.Gosched()
 				id := int(nextVal.Add(1))
+				if id < len(handles) {
+					handles[id].Store(&released)
+				}
 				inResolver.Add(-1)
 				return id, func() { relAt[id%len(relAt)].Store(int32(id)); relN[id%len(relN)].Add(1) }, nil
 			}
@@ -590,12 +595,28 @@ func refcountFree(t *testing.T, prop string) {
 							mineRefs = append(mineRefs[:i], mineRefs[i+1:]...)
 						}
 					default:
-						runtime.Gosched()
+						// the latest value is declared invalid while everybody else is busy on the container
+						if id := int(nextVal.Load()); id > 0 && id < len(handles) {
+							if h := handles[id].Load(); h != nil {
+								invalidated[id].Store(true)
+								(*h)()
+							}
+						}
 					}
 				}
 			})
 			stopGC.Store(true)
 			gwg.Wait()
+			// released() makes the value be dropped (the anchor reference is still held): every value
+			// it was called for gets released (one that never is shows up as a stalled case)
+			waitUntil(func() bool {
+				for id := range invalidated {
+					if invalidated[id].Load() && relN[id].Load() == 0 {
+						return false
+					}
+				}
+				return true
+			})
 			final, fref, err := rc.Wait(context.Background())
 			if err != nil {
 				f.add("C09", "refcount:no-final-value", "Wait after the last context change returned %v", err)
@@ -898,7 +919,28 @@ func TestC18Free(t *testing.T) {
 					}
 				}()
 			}
-			defer func() { stopPoll.Store(true); pwg.Wait() }()
+			// observers stay blocked in WatchState / WaitIdle while workers come and go
+			wctx, wcancel := context.WithCancel(context.Background())
+			for w := 0; w < 2; w++ {
+				pwg.Add(1)
+				go func() {
+					defer pwg.Done()
+					if w == 0 {
+						_ = q.WatchState(wctx, nil, func(qd, rn int) (bool, error) {
+							if limit > 0 && (rn > limit || (qd > 0 && rn != limit)) {
+								f.add("C18", "conc:pair-queued-while-free", "WatchState reported (queued=%d, running=%d) with limit %d", qd, rn, limit)
+							}
+							return true, nil
+						})
+						return
+					}
+					for wctx.Err() == nil {
+						_ = q.WaitIdle(wctx, nil)
+						runtime.Gosched()
+					}
+				}()
+			}
+			defer func() { stopPoll.Store(true); wcancel(); pwg.Wait() }()
 			parallel(len(cs.G), func(g int) {
 				for k, op := range cs.G[g] {
 					n := op % 4
